@@ -84,6 +84,9 @@ func solveAll(obls []*Oblig, budget int) {
 	sem := make(chan struct{}, 16)
 	for _, o := range obls {
 		o := o
+		if o.Res.Status != "" {
+			continue
+		}
 		if o.Goal == "true" && o.Expect == "unsat" {
 			o.Res = SolveResult{Status: "unsat", Solver: "trivial"}
 			continue
